@@ -149,7 +149,13 @@ Inductive err :=
 | ETermRule | ETermUndefined | ETermAbstract | ETermRecursion
 | EParamConflict | EParamDup | ETemplateUndefined | ETemplateArity | ESymUndefined | EIgnoreUndefined
 | ETemplateLookup
-| EFuel.
+| EFuel
+(* raised by the front end (Mod/Front.v) and by the file search (Mod/Search.v) *)
+| ENothingImported     (* _unpack_import: "Nothing was imported from grammar" *)
+| EInlineExpand1       (* _make_rule_tuple: "Inlined rules (_rule) cannot use the ?rule modifier." *)
+| EBasePath            (* load_grammar: assert base_path == import_base_path (AssertionError) *)
+| EFoundElsewhere      (* do_import: assert False after the search failed but ./<grammar_path> exists *)
+| ESourceType.         (* do_import: a PackageResource base_path used as a directory (TypeError) *)
 
 Inductive result (A : Type) := Ok (a : A) | Err (e : err).
 Arguments Ok {A} a.
